@@ -66,7 +66,7 @@ static const convn_t convn_table[] = {
 #define NCONVN 9
 #define NMAX 6
 #define NZ0N 8
-#define NMATN 10
+#define NMATN 12
 
 static int n_entry(int tier) { return tier ? 7 : 3; }
 static int n_mats(int tier)
@@ -357,10 +357,32 @@ static void gen_matn(int n, int type, int k, double complex *m)
 	}
 	return;
     }
+    if (k == 10) {
+	/*
+	 * a lossless chain: zero diagonal, purely imaginary couplings
+	 * (quarter-wave sections 1-2, 3-4, ... joined by reactances; an odd
+	 * last port ends in a reactance).  Well conditioned, but every
+	 * elimination starts on a zero and no entry has a real part.
+	 */
+	for (int i = 0; i < n * n; ++i)
+	    m[i] = 0;
+	for (int b = 0; b + 1 < n; ++b) {
+	    double complex g = (b & 1) ? 0.3 * I * (1.0 + 0.1 * b) :
+		-1.0 * I * (1.0 + 0.2 * b);
+	    if (type == PT_S)
+		g *= (b & 1) ? 0.5 : 0.8;
+	    m[b * n + b + 1] = m[(b + 1) * n + b] = g * sc;
+	}
+	if (n & 1)
+	    m[n * n - 1] = (type == PT_S ? 1.0 : 0.7) * I * sc;
+	return;
+    }
     for (int i = 0; i < n; ++i) {
 	for (int j = 0; j < n; ++j) {
 	    double complex v = vf_cunit(1000 + (uint64_t)k * 64 + (uint64_t)n,
 		    (uint64_t)(i * 8 + j));
+	    if (k == 11)			/* purely reactive, dense */
+		v = I * cimag(v);
 	    if (k == 1 && j < i)		/* symmetric member */
 		v = vf_cunit(1000 + (uint64_t)k * 64 + (uint64_t)n,
 			(uint64_t)(j * 8 + i));
